@@ -361,11 +361,33 @@ func envPickler(x starlark.Value) (module, name string, args starlark.Tuple, err
 		return "dawn", "FunctionCode", starlark.Tuple{module, globals, starlark.Bytes(x.Bytecode())}, nil
 	case *starlark.Function:
 		defaults, freevars := x.Env()
+		// A variable that a closure captured but that was never assigned has no value.
+		for i, v := range freevars {
+			if pair, ok := v.(starlark.Tuple); ok && len(pair) == 2 && pair[1] == nil {
+				freevars[i] = starlark.Tuple{pair[0], unassigned{}}
+			}
+		}
 		return "dawn", "Function", starlark.Tuple{defaults, freevars, x.Code()}, nil
+	case unassigned:
+		return "dawn", "Unassigned", starlark.Tuple{}, nil
 	default:
+		// The default of a parameter without one (a keyword-only parameter that must be passed, listed before an
+		// optional one) is an interpreter-internal placeholder.
+		if x.Type() == "mandatory" {
+			return "dawn", "Mandatory", starlark.Tuple{}, nil
+		}
 		return "", "", nil, pickle.ErrCannotPickle
 	}
 }
+
+// unassigned stands for the value of a captured variable that has never been assigned.
+type unassigned struct{}
+
+func (unassigned) String() string        { return "unassigned" }
+func (unassigned) Type() string          { return "unassigned" }
+func (unassigned) Freeze()               {}
+func (unassigned) Truth() starlark.Bool  { return starlark.False }
+func (unassigned) Hash() (uint32, error) { return 0, nil }
 
 // envUnpickler provides support for unpickling functions and modules.
 //
@@ -396,6 +418,11 @@ func envUnpickler(module, name string, args starlark.Tuple) (starlark.Value, err
 			return nil, fmt.Errorf("expected 0 args, got %v", len(args))
 		}
 		return args, nil
+	case "Mandatory", "Unassigned":
+		if len(args) != 0 {
+			return nil, fmt.Errorf("expected 0 args, got %v", len(args))
+		}
+		return starlark.Tuple{starlark.String(strings.ToLower(name))}, nil
 	case "FunctionCode":
 		if len(args) != 3 {
 			return nil, fmt.Errorf("expcted 3 args, got %v", len(args))
